@@ -145,11 +145,13 @@ def r_tagmap(run, F, T, check_registry=True, rule="R-TAGMAP"):
         r = p.ret
         val = r[2][0] if (r[0] == "ctor" and r[1].endswith("::Ok") and r[2]) else None
         tagv = None
+        tagvs = []
         for c in p.conds:
             if c[0] == "match" and len(c) > 4:
-                for pv in pat_variants(c[4]):
-                    if pv.startswith(VT):
-                        tagv = pv
+                alts = sorted(pv for pv in pat_variants(c[4]) if pv.startswith(VT))
+                if alts:
+                    tagv = alts[0]
+                    tagvs = alts      # every alternative of an or-pattern decodes to this arm's kind
                 if is_call(c[1], "num_traits::FromPrimitive::from_u8") and "None" in c[2] and not c[2].startswith("!"):
                     tagv = "<unknown byte>"
                 if isinstance(c[1], tuple) and c[1][0] == "proj" and c[4].get("k") in ("wild", "bind") and tagv is None:
@@ -163,7 +165,10 @@ def r_tagmap(run, F, T, check_registry=True, rule="R-TAGMAP"):
             fallback_ok.append(ok)
             run.ob(rule, "parse fallback %s keeps tag and bytes" % tagv, ok, "fallback builds %s" % tshow(val)[:120], site(pb), key="%s|parse|fallback|%s" % (rule, tagv))
         elif tagv:
-            from_tag[tagv] = kind
+            for tv in tagvs or [tagv]:
+                run.ob(rule, "parse decodes %s in one arm only" % tv.split("::")[-1], from_tag.get(tv, kind) == kind,
+                       "tag %s is decoded as %s and as %s on different paths" % (tv.split("::")[-1], from_tag.get(tv), kind), site(pb), key="%s|parse|two-kinds|%s" % (rule, tv))
+                from_tag[tv] = kind
     n = 0
     fixed = [k for k in T["kinds"] if k != "Other"]
     seen_tags = {}
